@@ -33,7 +33,7 @@ def jobs(ctx, names=None, focus=(), record=True, snapshots=True):
     out = []
 
     def add(family, nm, cfg, task, **kw):
-        j = {"opt": nm, "family": "edge:" + family, "cfg": {"fitness_error": None, **cfg}, "task": task, **kw}
+        j = {"opt": nm, "family": "edge:" + family, "cfg": {"fitness_error": None, **cfg}, "task": task, "timeout": 60 if ctx.quick else 300, **kw}
         if record: j["record"] = True
         if snapshots: j["snapshots"] = True
         out.append(j)
@@ -78,7 +78,7 @@ def jobs(ctx, names=None, focus=(), record=True, snapshots=True):
 
 OUTSIDE = {
     # oracle -> families that are not observations for it
-    "size": ("edge:edge-config",),                      # C10: populations at the documented scale (1x-3x)
+    "size": ("edge:edge-config", "edge:edge-param"),    # C10: populations at the documented scale (1x-3x), the optimizer's own divisibility side conditions respected
 }
 
 
@@ -114,8 +114,8 @@ def decide(ctx, obs, oracle: str, **kw):
     return n
 
 
-def run(ctx, oracle: str, focus=(), **kw):
-    js = jobs(ctx, focus=focus, record=oracle == "calls", snapshots=oracle == "history")
+def run(ctx, oracle: str, focus=(), names=None, **kw):
+    js = jobs(ctx, names=names, focus=focus, record=oracle == "calls", snapshots=oracle == "history")
     obs = search.run_jobs(js)
     n = decide(ctx, obs, oracle, **kw)
     fams = {}
